@@ -275,6 +275,10 @@ static struct cat_io_interface io_if;
 static struct cat_mutex_interface mx_if;
 static void interfere_init(void);
 static void interfere_tick(void);
+static void interfere_regions(void);
+static struct cat_object B_obj;         /* second parser object (defined with the interferer below) */
+static struct cat_command B_cmds[6];
+static int B_locks, B_unlocks;
 
 void world_free(void)
 {
@@ -293,6 +297,7 @@ void world_build(void)
 
         I.obj = (struct cat_object *)w_alloc(sizeof(struct cat_object), "obj");
         w_obj = I.obj;
+        if (W.interfere) interfere_regions();     /* the second parser object is part of the explored state */
         I.S = (struct wstate *)w_alloc(sizeof(struct wstate), "wstate");
         I.line = w_alloc((size_t)W.line_max, "line");
         I.cmds = (struct cat_command *)w_alloc(sizeof(struct cat_command) * (size_t)(W.ncmd ? W.ncmd : 1), "cmds");
@@ -416,8 +421,10 @@ void world_init(void)
         I.desc->unsolicited_buf_size = W.shared ? 0 : (size_t)W.ubuf_size;
         if (I.nreg > W.buf_size * 4) mcx_fatal("config: too many commands for buffer (outside supported domain)");
         if (W.cap < 6) mcx_fatal("config: capacity %d below supported minimum 6", W.cap);
-        if (W.interfere) interfere_init();
+        /* the second parser object is initialised before the one under test in mode 1 and after it in mode 2 */
+        if (W.interfere == 1) interfere_init();
         cat_init(I.obj, I.desc, &io_if, W.use_mutex ? &mx_if : NULL);
+        if (W.interfere >= 2) interfere_init();
         gen_init(&I.S->gen);
         I.S->trig_left = (uint8_t)W.trig_budget;
         I.S->flag_left = (uint8_t)W.flag_budget;
@@ -592,6 +599,15 @@ static int pick_code(int evt, int kind, int *nonterm_left)
 /* optional side effects from inside a handler (no mutex configured) */
 static void handler_side_effects(int evt)
 {
+        if (W.interfere) {
+                /* a callback of this object raises an event on the other object: that object's own lock is taken and released once */
+                int l0 = B_locks, u0 = B_unlocks;
+                cat_status ts = cat_trigger_unsolicited_read(&B_obj, &B_cmds[4]);
+                if (B_locks != l0 + 1 || B_unlocks != u0 + 1)
+                        VIOL(P_C16 | P_C17, "C16: cat_trigger_unsolicited_read on a second parser object, called from a callback of the first, made %d lock and %d unlock calls on that object's mutex (want 1 and 1)", B_locks - l0, B_unlocks - u0);
+                if (ts != CAT_STATUS_OK && ts != CAT_STATUS_ERROR_BUFFER_FULL)
+                        VIOL(P_C16 | P_C13, "C13/C16: cat_trigger_unsolicited_read on a second parser object answered %d", (int)ts);
+        }
         if (W.use_mutex) {
                 /* the two query functions documented as lock-free may be called from inside callbacks */
                 if (W.nev > 0) {
@@ -746,6 +762,21 @@ static int B_read(char *ch)
 static int B_write(char ch) { (void)ch; return 1; }
 static cat_return_state B_run(const struct cat_command *c) { return (c->name[1] == 'B') ? CAT_RETURN_STATE_PRINT_CMD_LIST_OK : CAT_RETURN_STATE_OK; }
 static struct cat_io_interface B_io = {.write = B_write, .read = B_read};
+/* B has a mutex of its own: every locking API call on B must take and release it exactly once, whoever calls */
+static int B_locks, B_unlocks;
+static int B_lock(void) { B_locks++; return 0; }
+static int B_unlock(void) { B_unlocks++; return 0; }
+static struct cat_mutex_interface B_mx = {.lock = B_lock, .unlock = B_unlock};
+
+static void interfere_regions(void)
+{
+        mcx_region(&B_obj, sizeof B_obj, "B_obj");
+        mcx_region(B_buf, sizeof B_buf, "B_buf");
+        mcx_region(&B_val, sizeof B_val, "B_val");
+        mcx_region(B_sval, sizeof B_sval, "B_sval");
+        mcx_region(&B_pos, sizeof B_pos, "B_pos");
+        mcx_region(&B_gate, sizeof B_gate, "B_gate");
+}
 
 static void interfere_init(void)
 {
@@ -759,7 +790,7 @@ static void interfere_init(void)
         B_groups[0] = &B_g0; B_groups[1] = &B_g1;
         B_desc = (struct cat_descriptor){.cmd_group = B_groups, .cmd_group_num = 2, .buf = B_buf, .buf_size = sizeof B_buf};
         B_pos = 0; B_val = 0; B_gate = 0; memset(B_sval, 0, sizeof B_sval);
-        cat_init(&B_obj, &B_desc, &B_io, NULL);
+        cat_init(&B_obj, &B_desc, &B_io, &B_mx);
 }
 
 static void interfere_tick(void)
